@@ -32,13 +32,15 @@ def gen_col(rng, maxlen, alphabet, eos, mode):
     return col
 
 
-def gen_string_case(rng, tier, i, classes=CLASSES, max_len=None, want_prefix_flags=True):
+def gen_string_case(rng, tier, i, classes=CLASSES, max_len=None, want_prefix_flags=True, dims=None):
     cls = classes[i % len(classes)]
     big = tier == "thorough"
     M = max_len or (12 if big else 6)
     N = rng.randint(1, 6)
     R = rng.randint(0 if cls in ("no_eos", "empty_ref") else 1, M)
     H = rng.randint(0 if cls == "no_eos" else 1, M)
+    if dims is not None:
+        N, R, H = dims
     if cls == "hyp_longer":
         R = rng.randint(1, max(1, M // 2))
         H = rng.randint(R, M)
